@@ -124,6 +124,28 @@ pub fn c03(r: &mut Report) {
         corpus: true,
     };
     run_plan(r, &plan);
+    // termination verdicts of async programs (all-pending futures must be reported as deadlocks with
+    // exactly the blocked tasks; programs whose wakes all arrive must terminate, also when a wake lands
+    // while the task is asleep in a nested block_on or blocked in a synchronous primitive): the fixed
+    // programs of C17 and a sample of its generated ones, judged by C17's log checker
+    let mut aprogs: Vec<super::c17::AProg> = super::c17::deadlock_progs();
+    aprogs.extend(super::c17::nested_progs());
+    aprogs.extend(super::c17::moved_handle_progs());
+    let mut arng = crate::util::Rng::new(r.seed ^ 0xC03A);
+    for i in 0..(if r.quick() { 40 } else { 400 }) {
+        aprogs.push(super::c17::gen_prog(&mut arng, 1 + i % 5));
+    }
+    let aseed = r.seed;
+    let accs = oracle::parallel(aprogs.len(), oracle::workers(), |i, acc: &mut Acc| {
+        for k in [0usize, 6] {
+            super::c17::one_prog(&aprogs[i], k, aseed.wrapping_add(i as u64), if aprogs[i].must_deadlock { 8 } else { 60 }, acc);
+        }
+    });
+    for a in accs {
+        a.merge_into(r);
+    }
+    r.rule.push_str("; async termination: all-pending programs must be reported as deadlocks, programs whose wakes all arrive must pass (C17's fixed and generated async programs, judged by its poll/wake log checker)");
+
 }
 
 pub fn c04(r: &mut Report) {
